@@ -7,6 +7,9 @@ import (
 	"strings"
 	"testing"
 
+	"github.com/Eyevinn/mp4ff/avc"
+	"github.com/Eyevinn/mp4ff/hevc"
+
 	"verifharness/ref/bitw"
 	"verifharness/runner"
 )
@@ -137,4 +140,66 @@ func TestPPSLoopWitnesses(t *testing.T) {
 		fmt.Println("VIOL", v.Key, "|", head(v.What, 160))
 	}
 	fmt.Printf("tile witness %x\n", in)
+}
+
+// TestStructBase checks the local layouts of hostile.go against the library
+// on benign values (development aid): the base SPS/PPS and the slices laid out
+// for them must be accepted.
+func TestStructBase(t *testing.T) {
+	for _, mod := range []func(s *hvSPS, p *hvPPS){
+		func(s *hvSPS, p *hvPPS) {},
+		func(s *hvSPS, p *hvPPS) { s.nRPS, s.rpsMode, s.set0Neg, s.set0Pos = 5, 2, 2, 1 },
+		func(s *hvSPS, p *hvPPS) { s.nRPS, s.rpsMode, s.ltPresent, s.ltN, s.tmvp = 3, 4, true, 3, true },
+		func(s *hvSPS, p *hvPPS) {
+			s.ext, s.sccPalette, s.sccInit, s.sccNumMinus1, s.sccWritten, s.sccMvIdc = 15, true, true, 3, 4, 2
+			p.ext, p.transformSkip, p.rListEnabled, p.rListLenMinus1 = 1, true, true, 2
+		},
+		func(s *hvSPS, p *hvPPS) {
+			p.ext, p.mNumRefLoc, p.mRefLocAll, p.mCM, p.mOctantDepth, p.mYPart, p.mCodedRes = 2, 2, true, true, 1, 1, true
+			p.tiles, p.tileCols, p.tileRows, p.listsMod, p.sliceExt, p.weighted, p.cabacInit = true, 2, 1, true, true, true, true
+		},
+		func(s *hvSPS, p *hvPPS) { p.ext, p.dPresent, p.dLayersMinus1, p.dBd, p.dMode, p.dNumVal, p.dMaxDiff = 4, true, 1, 0, 3, 3, 2 },
+		func(s *hvSPS, p *hvPPS) {
+			p.ext, p.sAct, p.sActOffsets, p.sInit, p.sNum, p.sBdL, p.sBdC, p.sWritten = 8, true, true, true, 2, 2, 1, 2
+		},
+	} {
+		s, p := baseHvSPS(), baseHvPPS()
+		mod(&s, &p)
+		sn, counts := s.encode()
+		pn := p.encode()
+		sps := setupHEVCSPS(sn)
+		if sps == nil {
+			_, err := hevc.ParseSPSNALUnit(sn)
+			t.Errorf("sps rejected: %v %x", err, sn)
+			continue
+		}
+		sm, _ := hevcMapsFor(sps, nil)
+		pps, err := hevc.ParsePPSNALUnit(pn, sm)
+		if err != nil {
+			t.Errorf("pps rejected: %v %x", err, pn)
+			continue
+		}
+		sm, pm := hevcMapsFor(sps, pps)
+		sl, names := hvSlices(&s, &p, counts, nil)
+		for i, u := range sl {
+			sh, err := hevc.ParseSliceHeader(u, sm, pm)
+			fmt.Printf("  nRPS=%d %-70s err=%v size=%v\n", s.nRPS, names[i], err, sh != nil && err == nil)
+		}
+	}
+	asps, sl, names := avcStructSet()
+	a := avPPS{groups: 1, mapType: 3, val: 7, refL0: 1}
+	sps, err := avc.ParseSPSNALUnit(asps, true)
+	if err != nil {
+		t.Fatal(err)
+	}
+	sm, _ := avcMapsFor(sps, nil)
+	pps, err := avc.ParsePPSNALUnit(a.encode(), sm)
+	if err != nil {
+		t.Fatal(err)
+	}
+	sm, pm := avcMapsFor(sps, pps)
+	for i, u := range sl {
+		_, err := avc.ParseSliceHeader(u, sm, pm)
+		fmt.Printf("  %-60s err=%v\n", names[i], err)
+	}
 }
